@@ -1,7 +1,12 @@
 #!/bin/sh
-# run each seeded change against the quick checks of the property it targets (plus C01 as the catch-all)
-cd /verif
-for id in "$@"; do
+# run each seeded change against the quick check of the property it targets (override per seed in tools/seed_targets.txt)
+HERE=$(cd "$(dirname "$0")/.." && pwd)
+cd "$HERE"
+ids="$*"
+[ -z "$ids" ] && ids=$(ls seeded)
+for id in $ids; do
   prop=${id%%-*}
+  t=$(grep "^$id " tools/seed_targets.txt 2>/dev/null | cut -d' ' -f2-)
+  [ -n "$t" ] && prop="$t"
   tools/run_seed.sh $id ${TIER:-quick} $prop
 done
